@@ -31,18 +31,27 @@
     decimal digits is monotone, so with the gutter width `SpanDisplay::new`
     chooses (digits of the span's last line; widening keeps the last line) every
     gutter of the display is exactly that wide: all `|` separators are in one column.
-  * `C16_layout_partial`: if every highlight is well-behaved (`Spec.wellBehaved`:
-    single-line, or multi-line from column 0 of the first displayed line to the
-    middle of a displayed line) and carries exactly an end message, the plain
-    rendering of the display is, row for row, `Spec.displayRows` over the lines
-    `SplitLines` yields — the riser state machine of highlight.rs agrees with the
-    index-based layout specification.  `C16_layout_single_line` is the special
-    case with single-line highlights only.  Other multi-line shapes are the
-    recorded defect F10 and are NOT covered: the unrestricted statement
-    `C16_layout_statement` is refuted by a concrete F10 witness
-    (`C16_layout_statement_false`).  `C16_layout_report_partial` lifts the theorem
-    to the whole plain report (`Spec.reportRows`), i.e. to exactly the comparison
-    the differential driver makes.
+  * `C16_layout` (= `C16_layout_statement`, proved in full): if every highlight
+    carries exactly an end message (what `Highlight::new` builds) and fewer than
+    256 are multi-line, the plain rendering of the display is, row for row,
+    `Spec.displayRows` over the lines `SplitLines` yields — for highlights of
+    EVERY shape: single-line; multi-line starting at column 0 or mid-line on any
+    line, ending mid-line or at column 0; nested / overlapping; starting before,
+    ending after, or lying wholly outside the displayed lines (and even with the
+    end line above the start line).  The riser state machine of highlight.rs, as
+    repaired for finding F10 (commit 1f5db4b), agrees with the index-based
+    layout specification: its state is a function of the row sequence
+    (`waiting` up to the start row, `started` from there to the highlight's own
+    end mark row, `ended` after; the two normalisation steps handle start / end
+    lines that are not displayed), `C16_riser_step`.  Before the repair the
+    statement was false; `C16_former_F10_witness` shows that on the former
+    counterexample the model now prints exactly the specified rows.
+    `C16_layout_pieces` is the abstract form (any source, pieces with strictly
+    increasing line numbers); `C16_layout_report` lifts the theorem to the whole
+    plain report (`Spec.reportRows`), i.e. to exactly the comparison the
+    differential driver makes.  `C16_layout_partial` (well-behaved highlights),
+    `C16_layout_single_line` and `C16_layout_report_partial`, the formerly
+    proved special cases, are kept as corollaries.
   * `C16_strip_partial`: removing `ESC [ … m` sequences from one painted string
     gives the string back, when the string itself contains no ESC.
   * `C16_plain_is_coloured_stripped`: THE PLAIN RENDERING EQUALS THE COLOURED
@@ -236,9 +245,11 @@ theorem C16_gutter_aligned_display (m : Metrics) (_htab : 1 ≤ m.tab) (a mid z 
 
 /-! ### 5. layout -/
 
-/-- The layout statement without the restriction to well-behaved highlights.  It does NOT
-hold for the model (nor for the real code): multi-line highlights of other shapes are finding
-F10, see `C16_layout_statement_false`.  `C16_layout_partial` is the proved part. -/
+/-- The layout statement, for highlights of every shape (each with exactly an end message, what
+`Highlight::new` builds): the plain rendering of a display built by `SpanDisplay::new` from a
+canonical span is the specification's rows over the lines `SplitLines` yields, each followed by
+a newline.  It did not hold before the riser repair of finding F10 (commit 1f5db4b); it is now
+proved in full: `C16_layout`. -/
 def C16_layout_statement : Prop :=
   ∀ (m : Metrics), 1 ≤ m.tab → ∀ (a mid z : Text), Text.WF (a ++ mid ++ z) →
     aligned m a (mid ++ z) = true → aligned m (a ++ mid) z = true →
@@ -253,89 +264,62 @@ def C16_layout_statement : Prop :=
         .ok ("\n".intercalate (displayRows name sd.span sd.gutter
               (pieceLines (a ++ mid ++ z) (pieces.map (·.2))) hls) ++ "\n")
 
-/-- Finding F10, concretely: the LF text `ab⏎cd⏎ef`, displayed whole, with one multi-line
-highlight that starts in the middle of line 0 (column 1) and ends in the middle of line 1. -/
-def f10Metrics : Metrics := ⟨.lf, 4⟩
-def f10Text : Text := [⟨97, 1, 1⟩, ⟨98, 1, 1⟩, ⟨10, 1, 0⟩, ⟨99, 1, 1⟩, ⟨100, 1, 1⟩, ⟨10, 1, 0⟩,
-  ⟨101, 1, 1⟩, ⟨102, 1, 1⟩]
-def f10Highlights : List Highlight := [⟨⟨⟨1, 0, 1⟩, ⟨4, 1, 1⟩⟩, none, some "m", .error⟩]
-
-/-- Finding F10 refutes the unrestricted layout statement: for the display above the model
-(and the real code) prints the riser `|` on the start-mark row and blanks below it,
-`0 |   ab / | |_^ / 1 |   cd / |  _^ m`, where the layout asks for
-`0 |   ab / |  _^ / 1 | | cd / | |_^ m`. -/
-theorem C16_layout_statement_false : ¬ C16_layout_statement := by
-  intro hst
-  have hwf : Text.WF ([] ++ f10Text ++ []) := by
-    intro c hc
-    simp [f10Text] at hc
-    rcases hc with rfl | rfl | rfl | rfl | rfl | rfl | rfl | rfl <;> decide
-  have hw : widenSpec f10Metrics [] f10Text [] = ⟨canon f10Metrics [], canon f10Metrics ([] ++ f10Text)⟩ := by
-    simp [widenSpec, curLinePre, curLineSuf]
-  obtain ⟨pieces, n, hc, hout⟩ := hst f10Metrics (by decide) [] f10Text [] hwf (by decide) (by decide) none _ f10Highlights
-    (spanDisplay_new_ok f10Metrics [] f10Text [] hwf (by decide) (by decide) none)
-    (by intro h hh; simp [f10Highlights] at hh; subst hh; simp) (by decide)
-  simp only [hw] at hc hout
-  have hcol := collect_wide f10Metrics [] f10Text [] hwf (by decide) (by decide)
-  rw [hcol] at hc
-  injection hc with hc
-  injection hc with hc1 hc2
-  subst hc1
-  have hp : PiecesOK ⟨[] ++ f10Text ++ [], f10Metrics, Pos.zero⟩ (canon f10Metrics []).line (linesOf f10Metrics f10Text)
-      ((splitSpec f10Metrics [] f10Text []).map (·.2)) :=
-    pieces_ok f10Metrics [] (linesOf f10Metrics f10Text) [] f10Text rfl hwf (by decide) (by decide)
-  have hpieces : splitSpec f10Metrics [] f10Text [] =
-      [(3, ⟨⟨0, 0, 0⟩, ⟨2, 0, 2⟩⟩), (2, ⟨⟨3, 1, 0⟩, ⟨5, 1, 2⟩⟩), (1, ⟨⟨6, 2, 0⟩, ⟨8, 2, 2⟩⟩)] := by
-    simp [splitSpec, piecesFrom, canon, canonFrom, linesOf, breakAt, lbCodes, lbLen, stripCodes,
-      colWidth, bytes, Pos.zero, f10Metrics, f10Text]
-  have hL : linesOf f10Metrics f10Text = [[⟨97, 1, 1⟩, ⟨98, 1, 1⟩], [⟨99, 1, 1⟩, ⟨100, 1, 1⟩], [⟨101, 1, 1⟩, ⟨102, 1, 1⟩]] := by
-    simp [linesOf, breakAt, lbCodes, stripCodes, f10Metrics, f10Text]
-  have hcan1 : canon f10Metrics ([] ++ f10Text) = ⟨8, 2, 2⟩ := by
-    simp [canon, canonFrom, linesOf, breakAt, lbCodes, stripCodes, colWidth, bytes, Pos.zero, f10Metrics, f10Text]
-  rw [hL] at hp
-  simp only [hpieces, List.map_cons, List.map_nil, PiecesOK] at hp
-  obtain ⟨c1, s1, -, c2, s2, -, c3, s3, -, -⟩ := hp
-  simp only [writeSpanDisplay, hcol, hpieces] at hout
-  simp only [hcan1, canon_nil, List.map_cons, List.map_nil, lineRows, c1, c2, c3, pieceLines,
-    List.filterMap_cons, List.filterMap_nil, s1, s2, s3] at hout
-  revert hout
-  decide
-
-/-- Layout for well-behaved highlights (extra hypothesis `hwell`): the plain rendering of the
-display is the specification's rows over the lines `SplitLines` yields, each followed by a
-newline. -/
-theorem C16_layout_partial (m : Metrics) (_htab : 1 ≤ m.tab) (a mid z : Text)
-    (hwf : Text.WF (a ++ mid ++ z))
-    (ha1 : aligned m a (mid ++ z) = true) (ha2 : aligned m (a ++ mid) z = true)
-    (name : Option String) (sd : SpanDisplay) (hls : List Highlight)
-    (hnew : SpanDisplay.new ⟨a ++ mid ++ z, m, Pos.zero⟩ name ⟨canon m a, canon m (a ++ mid)⟩ = .ok sd)
-    (hmsg : ∀ h ∈ hls, h.startMsg = none ∧ ∃ msg, h.endMsg = some msg)
-    (hmulti : (hls.filter (·.isMultiline)).length < 256)
-    (hwell : ∀ h ∈ hls, wellBehaved sd.span.s.line sd.span.e.line h = true) :
-    ∃ pieces n,
-      (SplitLines.ofSpan sd.span ⟨a ++ mid ++ z, m, Pos.zero⟩).collect
-        (sd.span.e.line - sd.span.s.line + 2) = .ok (pieces, n) ∧
-      writeSpanDisplay plainPaint false ⟨a ++ mid ++ z, m, Pos.zero⟩ { sd with highlights := hls } =
-        .ok ("\n".intercalate (displayRows name sd.span sd.gutter
-              (pieceLines (a ++ mid ++ z) (pieces.map (·.2))) hls) ++ "\n") := by
+/-- LAYOUT, UNRESTRICTED.  For every list of highlights — single-line; multi-line starting at
+column 0 or mid-line, on any line; ending mid-line or at column 0; nested or overlapping;
+starting before, ending after or lying wholly outside the displayed lines; even with the end
+line above the start line — the plain rendering is, row for row, `Spec.displayRows`: the
+(repaired) riser state machine of highlight.rs agrees with the index-based layout
+specification. -/
+theorem C16_layout : C16_layout_statement := by
+  intro m _htab a mid z hwf ha1 ha2 name sd hls hnew hmsg hmulti
   rw [spanDisplay_new_ok m a mid z hwf ha1 ha2 name] at hnew
   injection hnew with hnew
   subst hnew
   exact writeSpanDisplay_layout_canon m a mid z hwf
     { name := name, span := widenSpec m a mid z, highlights := hls, notes := [],
       gutter := gutterWidth (canon m (a ++ mid)).line } rfl rfl hmulti
-    (fun h hh => ⟨hwell h hh, (hmsg h hh).1, (hmsg h hh).2⟩)
+    (fun h hh => hmsg h hh)
 
-/-- Non-vacuity: the LF text `ab⏎cd⏎ef`, the span over all of it, a multi-line highlight from
-the start of line 0 to the middle of line 1 and a single-line highlight on line 2 satisfy every
-hypothesis of `C16_layout_partial`. -/
+/-- The former F10 witness: the LF text `ab⏎cd⏎ef`, displayed whole, with one multi-line
+highlight that starts in the middle of line 0 (column 1) and ends in the middle of line 1. -/
+def f10Metrics : Metrics := ⟨.lf, 4⟩
+def f10Text : Text := [⟨97, 1, 1⟩, ⟨98, 1, 1⟩, ⟨10, 1, 0⟩, ⟨99, 1, 1⟩, ⟨100, 1, 1⟩, ⟨10, 1, 0⟩,
+  ⟨101, 1, 1⟩, ⟨102, 1, 1⟩]
+def f10Highlights : List Highlight := [⟨⟨⟨1, 0, 1⟩, ⟨4, 1, 1⟩⟩, none, some "m", .error⟩]
+
+/-- On the display that used to refute the layout statement (the pinned code printed
+`0 |   ab / | |_^ / 1 |   cd / |  _^ m`) the model of the repaired code prints exactly the
+specified rows `0 |   ab / |  _^ / 1 | | cd / | |_^ m / 2 |   ef`. -/
+theorem C16_former_F10_witness :
+    ∃ sd, SpanDisplay.new ⟨[] ++ f10Text ++ [], f10Metrics, Pos.zero⟩ none
+        ⟨canon f10Metrics [], canon f10Metrics ([] ++ f10Text)⟩ = .ok sd ∧
+      writeSpanDisplay plainPaint false ⟨[] ++ f10Text ++ [], f10Metrics, Pos.zero⟩
+          { sd with highlights := f10Highlights } =
+        .ok (" --> (0:0-2:2, bytes 0-8)\n  | \n0 |   ab\n  |  _^\n1 | | cd\n  | |_^ m\n2 |   ef\n") ∧
+      displayRows none sd.span sd.gutter [(0, "ab"), (1, "cd"), (2, "ef")] f10Highlights =
+        [" --> (0:0-2:2, bytes 0-8)", "  | ", "0 |   ab", "  |  _^", "1 | | cd", "  | |_^ m",
+         "2 |   ef"] := by
+  have hwf : Text.WF ([] ++ f10Text ++ []) := by
+    intro c hc
+    simp [f10Text] at hc
+    rcases hc with rfl | rfl | rfl | rfl | rfl | rfl | rfl | rfl <;> decide
+  refine ⟨_, spanDisplay_new_ok f10Metrics [] f10Text [] hwf (by decide) (by decide) none, ?_, ?_⟩
+  · decide +kernel
+  · decide +kernel
+
+/-- Non-vacuity of `C16_layout`: the LF text `ab⏎cd⏎ef`, the span over all of it, with a
+multi-line highlight starting mid-line (0:1–1:1), a multi-line highlight from column 0 of line 0
+ending at column 0 of line 2, a multi-line highlight from the start of line 0 to the middle of
+line 1, and a single-line highlight on line 2, satisfy every hypothesis. -/
 example :
     let m : Metrics := ⟨.lf, 4⟩
     let a : Text := []
     let mid : Text := [⟨97, 1, 1⟩, ⟨98, 1, 1⟩, ⟨10, 1, 0⟩, ⟨99, 1, 1⟩, ⟨100, 1, 1⟩, ⟨10, 1, 0⟩,
       ⟨101, 1, 1⟩, ⟨102, 1, 1⟩]
     let z : Text := []
-    let hls : List Highlight := [⟨⟨⟨0, 0, 0⟩, ⟨4, 1, 1⟩⟩, none, some "multi", .error⟩,
+    let hls : List Highlight := [⟨⟨⟨1, 0, 1⟩, ⟨4, 1, 1⟩⟩, none, some "midline", .error⟩,
+      ⟨⟨⟨0, 0, 0⟩, ⟨6, 2, 0⟩⟩, none, some "col0", .warning⟩,
+      ⟨⟨⟨0, 0, 0⟩, ⟨4, 1, 1⟩⟩, none, some "multi", .error⟩,
       ⟨⟨⟨6, 2, 0⟩, ⟨8, 2, 2⟩⟩, none, some "single", .note⟩]
     1 ≤ m.tab ∧ Text.WF (a ++ mid ++ z) ∧ aligned m a (mid ++ z) = true ∧
       aligned m (a ++ mid) z = true ∧
@@ -343,8 +327,8 @@ example :
           ⟨canon m a, canon m (a ++ mid)⟩ = .ok sd ∧
         (∀ h ∈ hls, h.startMsg = none ∧ ∃ msg, h.endMsg = some msg) ∧
         (hls.filter (·.isMultiline)).length < 256 ∧
-        (∀ h ∈ hls, wellBehaved sd.span.s.line sd.span.e.line h = true) ∧
-        (∃ h ∈ hls, h.isMultiline = true) := by
+        (∃ h ∈ hls, h.isMultiline = true ∧ h.span.s.col ≠ 0) ∧
+        (∃ h ∈ hls, h.isMultiline = true ∧ h.span.e.col = 0) := by
   intro m a mid z hls
   have hwf : Text.WF (a ++ mid ++ z) := by
     intro c hc
@@ -354,14 +338,37 @@ example :
     spanDisplay_new_ok m a mid z hwf (by decide) (by decide) (some "src"), ?_, by decide, ?_, ?_⟩
   · intro h hh
     simp [hls] at hh
-    rcases hh with rfl | rfl <;> simp
-  · have hw : widenSpec m a mid z = ⟨⟨0, 0, 0⟩, ⟨8, 2, 2⟩⟩ := by
-      simp [widenSpec, curLinePre, curLineSuf, canon, canonFrom, linesOf, breakAt, lbCodes, stripCodes,
-        colWidth, bytes, Pos.zero, m, a, mid, z]
-    intro h hh
-    simp [hls] at hh
-    rcases hh with rfl | rfl <;> simp [hw, wellBehaved, Highlight.isMultiline]
+    rcases hh with rfl | rfl | rfl | rfl <;> simp
   · exact ⟨_, List.mem_cons_self, by decide⟩
+  · exact ⟨_, List.mem_cons_of_mem _ List.mem_cons_self, by decide⟩
+
+/-- The same display as the former F10 witness, but with a highlight that starts mid-line and
+one that ends at column 0 together: what the model prints, rows as specified. -/
+example :
+    writeSpanDisplay plainPaint false ⟨f10Text, f10Metrics, Pos.zero⟩
+        { name := none, span := ⟨⟨0, 0, 0⟩, ⟨8, 2, 2⟩⟩, notes := [], gutter := 1,
+          highlights := [⟨⟨⟨1, 0, 1⟩, ⟨4, 1, 1⟩⟩, none, some "a", .error⟩,
+                         ⟨⟨⟨3, 1, 0⟩, ⟨6, 2, 0⟩⟩, none, some "b", .note⟩] } =
+      .ok (" --> (0:0-2:2, bytes 0-8)\n  | \n0 |    ab\n  |   _^\n1 | |/ cd\n  | ||_^ a\n2 |  | ef\n  |  |_^ b\n") := by
+  decide +kernel
+
+/-- The formerly proved part, now a special case of `C16_layout`: well-behaved highlights
+(`Spec.wellBehaved`; the hypothesis `hwell` is no longer needed). -/
+theorem C16_layout_partial (m : Metrics) (_htab : 1 ≤ m.tab) (a mid z : Text)
+    (hwf : Text.WF (a ++ mid ++ z))
+    (ha1 : aligned m a (mid ++ z) = true) (ha2 : aligned m (a ++ mid) z = true)
+    (name : Option String) (sd : SpanDisplay) (hls : List Highlight)
+    (hnew : SpanDisplay.new ⟨a ++ mid ++ z, m, Pos.zero⟩ name ⟨canon m a, canon m (a ++ mid)⟩ = .ok sd)
+    (hmsg : ∀ h ∈ hls, h.startMsg = none ∧ ∃ msg, h.endMsg = some msg)
+    (hmulti : (hls.filter (·.isMultiline)).length < 256)
+    (_hwell : ∀ h ∈ hls, wellBehaved sd.span.s.line sd.span.e.line h = true) :
+    ∃ pieces n,
+      (SplitLines.ofSpan sd.span ⟨a ++ mid ++ z, m, Pos.zero⟩).collect
+        (sd.span.e.line - sd.span.s.line + 2) = .ok (pieces, n) ∧
+      writeSpanDisplay plainPaint false ⟨a ++ mid ++ z, m, Pos.zero⟩ { sd with highlights := hls } =
+        .ok ("\n".intercalate (displayRows name sd.span sd.gutter
+              (pieceLines (a ++ mid ++ z) (pieces.map (·.2))) hls) ++ "\n") :=
+  C16_layout m _htab a mid z hwf ha1 ha2 name sd hls hnew hmsg hmulti
 
 /-- The special case of single-line highlights only. -/
 theorem C16_layout_single_line (m : Metrics) (_htab : 1 ≤ m.tab) (a mid z : Text)
@@ -377,29 +384,41 @@ theorem C16_layout_single_line (m : Metrics) (_htab : 1 ≤ m.tab) (a mid z : Te
       writeSpanDisplay plainPaint false ⟨a ++ mid ++ z, m, Pos.zero⟩ { sd with highlights := hls } =
         .ok ("\n".intercalate (displayRows name sd.span sd.gutter
               (pieceLines (a ++ mid ++ z) (pieces.map (·.2))) hls) ++ "\n") := by
-  refine C16_layout_partial m _htab a mid z hwf ha1 ha2 name sd hls hnew hmsg ?_ ?_
-  · have : hls.filter (·.isMultiline) = [] := by
-      rw [List.filter_eq_nil_iff]; intro h hh; simp [hsingle h hh]
-    rw [this]; simp
-  · intro h hh; simp [wellBehaved, hsingle h hh]
+  refine C16_layout m _htab a mid z hwf ha1 ha2 name sd hls hnew hmsg ?_
+  have : hls.filter (·.isMultiline) = [] := by
+    rw [List.filter_eq_nil_iff]; intro h hh; simp [hsingle h hh]
+  rw [this]; simp
 
-/-- The abstract form of the layout theorem (any source; hypotheses on the pieces). -/
+/-- The abstract form of the layout theorem (any source; hypotheses on the pieces: strictly
+increasing line numbers, each piece clips to the text recorded for its line). -/
 theorem C16_layout_pieces (src : Source) (sd : SpanDisplay) (pieces : List (Nat × Span))
-    (n first last : Nat)
+    (n : Nat)
     (hcollect : (SplitLines.ofSpan sd.span src).collect (sd.span.e.line - sd.span.s.line + 2) =
       .ok (pieces, n))
     (hnotes : sd.notes = [])
     (hlen : (sd.highlights.filter (·.isMultiline)).length < 256)
-    (hok : ∀ h ∈ sd.highlights,
-      wellBehaved first last h = true ∧ h.startMsg = none ∧ ∃ msg, h.endMsg = some msg)
+    (hok : ∀ h ∈ sd.highlights, h.startMsg = none ∧ ∃ msg, h.endMsg = some msg)
     (lines : List (Nat × String))
     (hlines : lines.map (·.1) = pieces.map (·.2.s.line))
-    (hfirst : ∃ rest, pieces.map (·.2.s.line) = first :: rest)
+    (hsorted : (pieces.map (·.2.s.line)).Pairwise (· < ·))
     (hclip : ∀ p ∈ pieces, ∃ piece, src.clipped p.2 = .ok piece ∧
       textString piece.text = ((lines.find? (·.1 == p.2.s.line)).map (·.2)).getD "") :
     writeSpanDisplay plainPaint false src sd =
       .ok ("\n".intercalate (displayRows sd.name sd.span sd.gutter lines sd.highlights) ++ "\n") :=
-  writeSpanDisplay_layout src sd pieces n first last hcollect hnotes hlen hok lines hlines hfirst hclip
+  writeSpanDisplay_layout src sd pieces n hcollect hnotes hlen hok lines hlines hsorted hclip
+
+/-- One step of the riser state machine against the specification, the core of `C16_layout`:
+on row `i` of a list of row ids `ids` printed in order (`IdsOK`: sorted by line, source row
+before mark rows, mark rows in highlight order; the start and end rows of highlight `k` occur if
+their lines do), the model's `writeRiser`, started in the state reached after the rows before
+`i`, emits `Spec.riserChar ids h k i` (nothing for a single-line highlight) and moves to the
+state reached after row `i`; `active` is true exactly on the mark rows of highlight `k`. -/
+theorem C16_riser_step {ids : List RowId} {h : Highlight} {k : Nat}
+    (hmsg : h.startMsg = none ∧ ∃ msg, h.endMsg = some msg)
+    (hids : h.isMultiline = true → IdsOK ids h k) {i : Nat} {r : RowId} (hr : ids[i]? = some r) :
+    writeRiser plainPaint false h r.line (stateAt ids h k i) (rowAct r == some k) =
+      (if h.isMultiline then riserChar ids h k i else "", stateAt ids h k (i + 1)) :=
+  riser_step hmsg hids hr
 
 /-- the lines the layout oracle takes from `SplitLines` for a display (as `specRender` does) -/
 def displayLines (src : Source) (sd : SpanDisplay) : List (Nat × String) :=
@@ -407,38 +426,55 @@ def displayLines (src : Source) (sd : SpanDisplay) : List (Nat × String) :=
   | .ok (pieces, _) => pieceLines src.text (pieces.map (·.2))
   | .panic => []
 
-/-- a display of the text `t` built by `SpanDisplay::new` from a canonical span, with
-well-behaved highlights (each with exactly an end message) added afterwards -/
-def WellDisplay (m : Metrics) (t : Text) (sd : SpanDisplay) : Prop :=
+/-- a display of the text `t` built by `SpanDisplay::new` from a canonical span, with highlights
+(of any shape, each with exactly an end message, fewer than 256 multi-line ones) added
+afterwards -/
+def LayoutDisplay (m : Metrics) (t : Text) (sd : SpanDisplay) : Prop :=
   ∃ (a mid z : Text) (name : Option String) (sd0 : SpanDisplay),
     t = a ++ mid ++ z ∧ aligned m a (mid ++ z) = true ∧ aligned m (a ++ mid) z = true ∧
     SpanDisplay.new ⟨t, m, Pos.zero⟩ name ⟨canon m a, canon m (a ++ mid)⟩ = .ok sd0 ∧
     sd = { sd0 with highlights := sd.highlights } ∧
     (∀ h ∈ sd.highlights, h.startMsg = none ∧ ∃ msg, h.endMsg = some msg) ∧
-    (sd.highlights.filter (·.isMultiline)).length < 256 ∧
-    (∀ h ∈ sd.highlights, wellBehaved sd.span.s.line sd.span.e.line h = true)
+    (sd.highlights.filter (·.isMultiline)).length < 256
 
-/-- Layout of the whole plain report (extra hypothesis: every display is a `WellDisplay`, no
-report-level notes): the output is `Spec.reportRows`, each row followed by a newline — the
-comparison the differential driver makes (`specRender`), proved for all inputs. -/
-theorem C16_layout_report_partial (m : Metrics) (_htab : 1 ≤ m.tab) (t : Text) (hwf : Text.WF t)
+/-- Layout of the whole plain report (every display a `LayoutDisplay`, no report-level notes):
+the output is `Spec.reportRows`, each row followed by a newline — the comparison the
+differential driver makes (`specRender`), proved for all inputs and all highlight shapes. -/
+theorem C16_layout_report (m : Metrics) (_htab : 1 ≤ m.tab) (t : Text) (hwf : Text.WF t)
     (cd : CodeDisplay) (hcolor : cd.colorEnabled = false) (hnotes : cd.notes = [])
-    (hall : ∀ sd ∈ cd.spans, WellDisplay m t sd) :
+    (hall : ∀ sd ∈ cd.spans, LayoutDisplay m t sd) :
     writeCodeDisplay plainPaint ⟨t, m, Pos.zero⟩ cd =
       .ok ("\n".intercalate (reportRows cd.mtype cd.message
         (cd.spans.map fun sd =>
           (sd.name, sd.span, sd.gutter, displayLines ⟨t, m, Pos.zero⟩ sd, sd.highlights))) ++ "\n") := by
   apply writeCodeDisplay_layout _ cd hcolor hnotes
   intro sd hsd
-  obtain ⟨a, mid, z, name, sd0, rfl, ha1, ha2, hnew, hsd0, hmsg, hmulti, hwell⟩ := hall sd hsd
+  obtain ⟨a, mid, z, name, sd0, rfl, ha1, ha2, hnew, hsd0, hmsg, hmulti⟩ := hall sd hsd
   rw [spanDisplay_new_ok m a mid z hwf ha1 ha2 name] at hnew
   injection hnew with hnew
   have hspan : sd.span = widenSpec m a mid z := by rw [hsd0, ← hnew]
   have hno : sd.notes = [] := by rw [hsd0, ← hnew]
   obtain ⟨pieces, n, hc, hw⟩ := writeSpanDisplay_layout_canon m a mid z hwf sd hspan hno hmulti
-    (fun h hh => ⟨hwell h hh, (hmsg h hh).1, (hmsg h hh).2⟩)
+    (fun h hh => hmsg h hh)
   rw [hw]
   simp only [displayLines, hc]
+
+/-- a `LayoutDisplay` whose highlights are moreover well-behaved (the class of the former
+partial theorem) -/
+def WellDisplay (m : Metrics) (t : Text) (sd : SpanDisplay) : Prop :=
+  LayoutDisplay m t sd ∧
+    (∀ h ∈ sd.highlights, wellBehaved sd.span.s.line sd.span.e.line h = true)
+
+/-- The formerly proved part of the report-level layout, now a special case of
+`C16_layout_report`. -/
+theorem C16_layout_report_partial (m : Metrics) (_htab : 1 ≤ m.tab) (t : Text) (hwf : Text.WF t)
+    (cd : CodeDisplay) (hcolor : cd.colorEnabled = false) (hnotes : cd.notes = [])
+    (hall : ∀ sd ∈ cd.spans, WellDisplay m t sd) :
+    writeCodeDisplay plainPaint ⟨t, m, Pos.zero⟩ cd =
+      .ok ("\n".intercalate (reportRows cd.mtype cd.message
+        (cd.spans.map fun sd =>
+          (sd.name, sd.span, sd.gutter, displayLines ⟨t, m, Pos.zero⟩ sd, sd.highlights))) ++ "\n") :=
+  C16_layout_report m _htab t hwf cd hcolor hnotes (fun sd hsd => (hall sd hsd).1)
 
 /-! ### 6. escape codes -/
 
